@@ -24,6 +24,9 @@ VerReal == Bytes(AlphaAll)
            \cup {[c |-> "X", n |-> k] : k \in {2, 246, 249, 250}}
            \cup {[c |-> "B", n |-> 249], [c |-> "Z", n |-> 250], [c |-> "S", n |-> 2], [c |-> "S", n |-> 254], [c |-> "R", n |-> 2]}
            \cup {[c |-> "N", n |-> k] : k \in {2, 1021, 1022, 1023}}
+\* quick tier: the boundaries 253 / 254 / 255 and 1022 / 1023 / 1024 only
+VerRealQ == Bytes(AlphaT)
+            \cup {[c |-> "X", n |-> 249], [c |-> "X", n |-> 250], [c |-> "S", n |-> 2], [c |-> "N", n |-> 1022], [c |-> "N", n |-> 1023]}
 NoVer == {}
 
 KindsConf == {"kexinit", "kexmsg", "newkeys"}
@@ -34,6 +37,7 @@ KindsLite == PacketKinds \ {"zero", "empty", "svcacc2", "extbad", "debug"}
 KindsVerGen == {"kexinit", "kexmsg", "kexmsgbad", "newkeys"}
 NoRuns == {}
 RunsRealQ == {64, 81, 82}
+RunsSim == {2, 5, 63, 64, 65, 81}
 RunsScaled == {2, 3, 4}
 RunsReal == {63, 64, 65, 80, 81, 82}
 BurstsScaled == {1, 2}
@@ -58,6 +62,12 @@ GenSpec == GenInit /\ [][GPeer]_<<S, hist>>
 \* the same keeping the history without printing (simulation prints complete histories with EmitEnd)
 HPeer == \E e \in PeerEvents(S) : S' = Step(S, e) /\ hist' = Append(hist, Obs(S'))
 HistSpec == GenInit /\ [][HPeer]_<<S, hist>>
+\* random walks: the first SimMin packet events keep the connection alive, so that the walks get somewhere
+SimMin == 18
+HPeerLive == \E e \in PeerEvents(S) : LET n == Step(S, e) IN
+                /\ (n.ph # "dead" \/ S.npk >= SimMin \/ S.ph = "ver")
+                /\ S' = n /\ hist' = Append(hist, Obs(S'))
+SimSpec == GenInit /\ [][HPeerLive]_<<S, hist>>
 EmitEnd == (Len(hist) > 1 /\ (S.ph = "dead" \/ S.npk >= MaxPkt)) =>
               PrintT("TRACE " \o ToJson([cfg |-> Cfg(S), steps |-> hist, final |-> FinalObs(S)]))
 =============================================================================
